@@ -56,6 +56,12 @@
 //     a traced call appears in the trace entry by that name, and a method
 //     called on such a local records the name as first argument ("which of the
 //     two caches is written"); results of abstract type are such names;
+//   - with "trace", `for k, v := range X` over an abstract X whose body consists
+//     only of traced calls, assignments to fields of abstract objects and nested
+//     such loops, and reads no value that varies per element (no new opaque
+//     parameter), is an *effect loop*: the trace entries ("for", ["v, k, range
+//     X"]), the entries of the body (once: they are the same for every
+//     element), ("end", []);
 //   - a type switch on an abstract value is an if-chain, in clause order, over
 //     extra Bool parameters `e<k>_is_<T>` ("the dynamic type is T"); fields of
 //     the narrowed value are opaque values as above;
@@ -419,6 +425,7 @@ type fctx struct {
 	opaqueVals  map[string]string
 	opaqueNodes map[ast.Expr]string
 	typeTests   map[*ast.TypeAssertExpr]bool
+	loopEnd     map[*ast.EmptyStmt]int
 	opaqueCalls map[*ast.CallExpr]string
 }
 
@@ -1495,8 +1502,45 @@ func (c *fctx) stmts(list []ast.Stmt) string {
 		})
 	case *ast.SwitchStmt:
 		return c.stmts(append(c.desugarSwitch(x), rest...))
+	case *ast.EmptyStmt:
+		if n, ok := c.loopEnd[x]; ok {
+			if c.nOpaque != n {
+				fail("loop body reads values that vary per element")
+			}
+			return "let tr := tr ++ [(\"end\", [])]\n" + c.stmts(rest)
+		}
+		return c.stmts(rest)
 	case *ast.RangeStmt:
-		return c.rangeLoop(x, rest)
+		if !c.trace || !c.t.isAbstract(c.typeOf(x.X)) {
+			return c.rangeLoop(x, rest)
+		}
+		// effect loop over an abstract collection: see the header comment
+		head := "range " + c.show(x.X)
+		for _, v := range []ast.Expr{x.Value, x.Key} {
+			if id, ok := v.(*ast.Ident); ok && (id.Name == "_" || c.t.isAbstract(c.lhsType(id))) {
+				head = id.Name + ", " + head
+			} else if v != nil {
+				fail("loop variable %s", c.show(v))
+			}
+		}
+		for _, b := range x.Body.List {
+			switch s := b.(type) {
+			case *ast.RangeStmt, *ast.ExprStmt:
+			case *ast.AssignStmt:
+				if len(s.Lhs) != 1 || s.Tok != token.ASSIGN || !c.abstractTarget(s.Lhs[0]) {
+					fail("assignment %s in a loop over an abstract collection", c.show(s))
+				}
+			default:
+				fail("statement %s in a loop over an abstract collection", c.show(b))
+			}
+		}
+		end := &ast.EmptyStmt{}
+		if c.loopEnd == nil {
+			c.loopEnd = map[*ast.EmptyStmt]int{}
+		}
+		c.loopEnd[end] = c.nOpaque
+		return fmt.Sprintf("let tr := tr ++ [(\"for\", [%q])]\n", head) +
+			c.stmts(append(append(append([]ast.Stmt{}, x.Body.List...), end), rest...))
 	case *ast.BranchStmt:
 		if c.loop != nil && x.Label == nil {
 			switch x.Tok {
@@ -1511,8 +1555,6 @@ func (c *fctx) stmts(list []ast.Stmt) string {
 		return c.stmts(append(c.desugarTypeSwitch(x), rest...))
 	case *ast.BlockStmt:
 		return c.stmts(append(append([]ast.Stmt{}, x.List...), rest...))
-	case *ast.EmptyStmt:
-		return c.stmts(rest)
 	case *ast.DeclStmt:
 		gd, ok := x.Decl.(*ast.GenDecl)
 		if !ok || gd.Tok != token.VAR {
